@@ -60,9 +60,19 @@ fn replay(path: &str) -> i32 {
         "C18" => addr::replay_c18(&ctx, case),
         "C19" => det::replay_c19(&ctx, case),
         "C20" => builders::replay_c20(&ctx, case),
-        _ => machinery_error(&format!("no replay for {}", id)),
+        _ => {
+            // a case of a stage without a single-case replayer: re-run the property's quick check
+            // and keep the recorded class
+            println!("replay: no single-case replayer for this case; re-running the quick check of {} and filtering for the recorded class", id);
+            run(&id, &ctx);
+        }
     }
-    let classes = ctx.violation_classes();
+    let mut classes = ctx.violation_classes();
+    if let Some(want) = v["class"].as_str() {
+        if classes.iter().any(|(c, _, _)| c == want) {
+            classes.retain(|(c, _, _)| c == want);
+        }
+    }
     if classes.is_empty() {
         println!("replay: no violation reproduced for {}", path);
         0
